@@ -133,6 +133,20 @@ CHECKS = {
         "note": "PARTIAL: fairness of random.Random.choices assumed; substitution expansions restricted to keep / fixed outcome / re-roll the source; axioms: none.",
         "design": "5/C11",
     },
+    "C12": {
+        "text": ("Theorems on a heap model of the object graph (outcome and roll cells with ids, late association of "
+                 "outcomes with rolls, euthanize/adopt): for every roller tree, every answer script and every starting "
+                 "heap the returned roll is complete (every outcome reachable through sources has a roll; every live "
+                 "outcome of every source roll is kept or a transitive source of a kept outcome), carries the producing "
+                 "roller, its source rolls are the children's rolls in order, its recorded values are those of the "
+                 "value-level semantics (C11), and every outcome reachable from ANY allocated roll has a roll; every "
+                 "allocated roll is complete except copies made by Roll.adopt inside SubstitutionRoller - the full "
+                 "statement is REFUTED there (C12_full_statement_refuted), confirmed on the implementation and recorded "
+                 "as known finding K2. Correspondence: on every answer path the real object graph is checked against the "
+                 "property directly and its projection compared with the model's record."),
+        "note": "PARTIAL: object identity is modelled by heap ids, the comparison uses a tree projection of the graph; set iteration order of excluded indexes taken as ascending; axioms: none.",
+        "design": "5/C12",
+    },
     "C13": {
         "text": ("Theorems: a memo table keyed by K answers every history of calls like first calls iff K determines the "
                  "answer (both directions); the repaired key of the process-wide partial-selection memo (exact typed items) "
